@@ -32,6 +32,10 @@ def scenarios(tier):
     # a branch that has *finished* (its last event is held unacknowledged for the join) while a sibling is still outstanding
     add("crash-parallel-wait-end", chain(("P", Parallel([chain(("A1", Wait(1))), chain(("B1", Task("fb")))])), Z), workers={"fb": {"*": [["delay", ["ok", "b"]]]}})
     add("crash-parallel-pass-end", chain(("P", Parallel([chain(("A1", Pass(Result="a"))), chain(("B1", Wait(2)))])), Z))
+    # branches of two states: a crash inside the first state's handler (successor published, own event not yet acknowledged) makes the
+    # successor arrive twice at the join after the restart - results are recorded by position, so the join is neither early nor doubled
+    add("crash-parallel-two-step-branches", chain(("P", Parallel([chain(("A1", Pass(Result="a1")), ("A2", Pass(Result="a2"))), chain(("B1", Pass(Result="b1")), ("B2", Task("fb")))])), Z),
+        workers={"fb": {"*": [["delay", ["ok", "b2"]]]}}, midstep_preserves=True)
     add("crash-map-wait-items", chain(("M", Map(chain(("I", Wait(SecondsPath="$"))))), Z), input=[1, 2])
     add("crash-choice-succeed", chain(("C", corpus.Choice([{"Variable": "$.x", "NumericEquals": 1, "Next": "W"}], default="Z")), ("W", Wait(1, Next="S")), ("S", corpus.Succeed()), Z), input={"x": 1})
     # synchronous child executions: the pending request is keyed by the child's ARN, which must survive the restart
@@ -138,7 +142,8 @@ def build_jobs(tier, monitors=MONITORS, names=None, variants=None):
                 s2 = copy.deepcopy(sc)
                 s2["name"] = "%s@m%d.%d" % (sc["name"], j, k)
                 s2["family"] = "%s/midstep" % sc["family"]
-                s2["preserve_outcome"] = False
+                s2["preserve_outcome"] = bool(sc.get("midstep_preserves"))
+                s2["judge_first_terminal"] = bool(sc.get("midstep_preserves"))
                 lim = dict(limits0, preamble=labels[:j] + [["arm_crash", k], lab, ["restart", 1]])
                 jobs.append((s2, sc.get("post_bound"), lim)); by_name[s2["name"]] = s2
                 npoints["midstep"] += 1
